@@ -514,8 +514,21 @@ impl Property for C20 {
                 drop(a);
                 let mut a2 = Artifact::from_oci_archive(&path)?;
                 let ok2 = a2.get_manifest().is_ok();
-                let ok3 = a2.get_instances().is_ok() && false;
-                Ok(ok1 || ok2 || ok3)
+                // ... also when other requests were served from the same handle before (whatever they answered):
+                // by-digest lookups that find nothing, a lookup of the one stored layer, the list accessors
+                let mut a3 = Artifact::from_oci_archive(&path)?;
+                let nothing = Digest::from_buf_sha256(b"no such layer");
+                let stored = Digest::from_buf_sha256(b"hello");
+                let _ = a3.get_solution(&nothing);
+                let _ = a3.get_instance(&nothing);
+                let _ = a3.get_layer(&stored);
+                let _ = a3.get_sample_set(&stored);
+                let ok3 = a3.get_manifest().is_ok();
+                let mut a4 = Artifact::from_oci_archive(&path)?;
+                let _ = a4.get_instances();
+                let _ = a4.get_solutions();
+                let ok4 = a4.get_manifest().is_ok();
+                Ok(ok1 || ok2 || ok3 || ok4)
             })();
             let _ = std::fs::remove_file(&path);
             ctx.sample_with(|| json!({"case": "non-OMMX image: get_manifest must fail"}));
